@@ -171,6 +171,16 @@ func (a *FuncAction) Exec(ctx context.Context, bs Bindings, props StepProps) (*E
 		}
 	}
 
+	if Exp_PermanentBindings && bs != nil {
+		// A native action can change the bindings it was given in
+		// place (Bindings.Remove and friends do).  If it then fails
+		// or (as a guard) rejects, processing continues with those
+		// bindings, so put the permanent ones back there, too.
+		for p, v := range permanent {
+			bs[p] = v
+		}
+	}
+
 	{ // This block just generates tracing data.
 		if exe == nil {
 			exe = NewExecution(nil)
